@@ -38,6 +38,17 @@ ASSUMPTIONS = [
 ]
 
 
+class Interrupted(Exception):
+    """Injected fault: the class's own emptiness check is interrupted."""
+
+
+FAIL_NEXT = [False]
+
+
+def truth_empty(k):
+    return k % 7 == 3
+
+
 class PoolClass(CombinatorialClass):
     """Plain class: stored uncompressed."""
 
@@ -45,7 +56,10 @@ class PoolClass(CombinatorialClass):
         self.k = k
 
     def is_empty(self):
-        return self.k % 7 == 3
+        if FAIL_NEXT[0]:
+            FAIL_NEXT[0] = False
+            raise Interrupted()
+        return truth_empty(self.k)
 
     def __eq__(self, other):
         return type(other) is type(self) and other.k == self.k
@@ -91,6 +105,7 @@ def gen(rng, tier):
         "empty": rng.choice([1, 2]),
         "empty_l": rng.choice([0, 1]),
         "set_empty": rng.choice([0, 1]),
+        "empty_fault": rng.choice([0, 0, 1, 2]),
         "add": rng.choice([0, 1]),
         "iter": rng.choice([0, 1]),
         "restart": rng.choice([0, 0, 1]),
@@ -104,7 +119,7 @@ def gen(rng, tier):
         elif k in ("label_i", "class_i", "in_i"):
             # offset relative to the current size: -3 .. +2 around the end, or absolute small / negative
             ops.append([k, rng.choice(["abs", "rel"]), rng.randint(-3, 3)])
-        elif k in ("empty", "empty_l", "set_empty"):
+        elif k in ("empty", "empty_l", "set_empty", "empty_fault"):
             ops.append([k, rng.randrange(1 << 16)])  # picks among known labels
         else:
             ops.append([k])
@@ -112,6 +127,7 @@ def gen(rng, tier):
 
 
 def execute(R, ctx):
+    FAIL_NEXT[0] = False
     cls = KINDS[R["kind"]]
     db = ClassDB(cls)
     keys = []  # label -> pool key
@@ -204,12 +220,29 @@ def execute(R, ctx):
                 unknown_tests += 1
             if got is not want:
                 raise Violation("membership-wrong", f"({i} in db) = {got!r} with {len(keys)} classes stored")
-        elif k in ("empty", "empty_l", "set_empty"):
+        elif k in ("empty", "empty_l", "set_empty", "empty_fault"):
             if not keys:
                 continue
             l = op[1] % len(keys)
             c = cls(keys[l])
-            truth = c.is_empty()
+            truth = truth_empty(keys[l])
+            if k == "empty_fault":
+                # fault: the class's own is_empty() is interrupted (if the database asks it at all)
+                FAIL_NEXT[0] = True
+                try:
+                    got = db.is_empty(c, l) if op[1] % 2 else db.is_empty(c)
+                    ctx.ev(k, l, got)
+                    if got is not truth:
+                        raise Violation("emptiness-wrong", f"is_empty({c!r}) = {got!r}, the class says {truth}")
+                except Interrupted:
+                    ctx.fault("interrupt_in_is_empty")
+                    ctx.ev(k, l, "interrupted")
+                FAIL_NEXT[0] = False
+                got = db.is_empty(cls(keys[l]))
+                if got is not truth:
+                    raise Violation("emptiness-wrong-after-interrupt", f"after an interrupted emptiness check is_empty({c!r}) = {got!r}, the class says {truth}")
+                empties += 1
+                continue
             if k == "set_empty":
                 db.set_empty(l, truth)
                 ctx.ev(k, l, truth)
